@@ -147,6 +147,41 @@ _c19 = [L2("ZZ_S07a_Timeout", 1, labels=["leak:"], note="quiescence after Timeou
         L2("ZZ_S06a_Bulkhead", 0, params={"max_m": 1}, labels=["leak:"], note="after bulkhead executions")]
 PROPS["C19"] = {"quick": _c19, "thorough": _c19}
 
+def FP(fn, **kw):
+    kw.setdefault("time_limit_s", 900)
+    return J("retrypolicy", fn, solver=FPS, native=True, **kw)
+
+_m3 = {"mags": 3, "mag_base": 4}
+PROPS["C13"] = {
+    "quick": [FP("ZZ_H13a_Jitter", params=_m3, note="jitter in {1s,59.000000001s,60s}; delay symbolic<2^47; random symbolic in [0,1)"),
+              FP("ZZ_H13c_RandomRange", params=_m3, note="delayMin/Max from the same grid; random symbolic"),
+              FP("ZZ_H13b_JitterFactor", params=_m3, note="delay from grid x factor {0.1,0.25,0.5,1}; float32 random symbolic; tolerance 2^-22 relative"),
+              FP("ZZ_H13e_Clamp", note="max-duration clamp, all quantities symbolic"),
+              FP("ZZ_H13f_DelayFunc", params=_m3, note="delay function value symbolic"),
+              FP("ZZ_H13g_Sequence", params={"mags": 2, "mag_base": 4}, note="3 consecutive getDelay calls, backoff x{1.5,2} with jitter or jitter factor; all random draws symbolic"),
+              L2("ZZ_S13h_RetryDelay", 1, labels=["delay:", "events:", "retry:"], note="Retry(delay D symbolic, optional max duration)(fn sleeping d): next attempt starts exactly when the scheduled delay elapsed; P=1")],
+    "thorough": [FP("ZZ_H13a_Jitter", time_limit_s=3000, note="all 14 magnitudes 1us..1h incl. 2^24+1, 2^31-1, 2^40+1"),
+                 FP("ZZ_H13c_RandomRange", time_limit_s=3000, note="all magnitude pairs"),
+                 FP("ZZ_H13b_JitterFactor", time_limit_s=3000, note="all 14 magnitudes x 4 factors"),
+                 FP("ZZ_H13d_BackoffStep", time_limit_s=3000, qtimeout_s=300, note="one backoff step, lastDelay and maxDelay symbolic<2^47, factor {1.5,2,3,10}"),
+                 FP("ZZ_H13e_Clamp"), FP("ZZ_H13f_DelayFunc"),
+                 FP("ZZ_H13g_Sequence", time_limit_s=3000, note="all 14 magnitudes"),
+                 L2("ZZ_S13h_RetryDelay", 2, 1, labels=["delay:", "events:", "retry:"], note="P=2, 1 delay injection")],
+    "assumptions": ["configuration magnitudes come from the stated grid (float multiplication of two symbolic operands is not decided by any installed solver within 300 s); random draws, elapsed time, delay-function values and the previous backoff delay are symbolic",
+                    "float32 rounding of the delay (2^-22 relative) is tolerated where the code computes in float32"],
+}
+PROPS["C02"]["quick"].append(L2("ZZ_S13h_RetryDelay", 1, labels=["retry:"], note="max duration: no retry after a failure handled once maxDuration elapsed; symbolic durations; P=1"))
+PROPS["C02"]["thorough"].append(L2("ZZ_S13h_RetryDelay", 2, labels=["retry:"], note="max duration; P=2"))
+_c18 = [J("failsafehttp", "ZZ_H18a_RetryableStatus", note="status code symbolic in [100,600) through the real RetryPolicyBuilder"),
+        J("failsafehttp", "ZZ_H18b_RetryAfter", note="status symbolic x 9 Retry-After header shapes through the real DelayFunc"),
+        J("internal/util", "ZZ_H18c_MergeContexts", preempt=1, race=True, labels=["adapter-ctx:"], note="caller ctx in {Background,TODO,cancellable,with value,with deadline(symbolic)} x execution ctx in {Background, cancellable}; who ends first; P=1")]
+PROPS["C18"] = {"quick": _c18, "thorough": _c18,
+                "level_note": "PARTIAL: only the adapter kernels are decided (retryable-status predicate, Retry-After arithmetic, per-attempt context merging). Everything that needs a real transport (requests as received by a server, body replay, response body readable to the end, gRPC stack) is not applicable to solver-based checking here and is listed under not_applicable.",
+                "assumptions": ["error-message based classification (regexp on url.Error text, x509) is not encoded", "gRPC status.FromError is not encoded"]}
+PROPS["C19"]["quick"] = PROPS["C19"]["quick"] + [J("internal/util", "ZZ_H18c_MergeContexts", preempt=1, race=True, labels=["leak:"], note="context merger goroutine after the attempt returned")]
+PROPS["C19"]["thorough"] = PROPS["C19"]["quick"]
+PROPS["C19"]["level_note"] = "PARTIAL: core library goroutines/timers and the HTTP/gRPC context merger are decided; release of pooled connections when a response is not closed is net/http.Transport behaviour and not applicable (listed under not_applicable)."
+
 DEFAULT_LEVEL_TEXT = ("Bounded symbolic model checking of the real code: the property's harness is executed symbolically from /repo's current "
                       "go/ssa; every feasible path within the stated bounds is explored and each assertion is discharged by an SMT solver for all "
                       "inputs/instants/schedules on that path. Holds 'for every value within the bound', says nothing outside it.")
@@ -154,7 +189,10 @@ DEFAULT_LEVEL_NOTE = ("Trusted: the symgo interpreter and its environment stubs 
                       "go/ssa. Bounds (sizes, script lengths, goroutines, preemptions, config grids) are listed per harness in the evidence; paths cut by a bound are counted.")
 
 # Properties not (yet) claimed. Kept current as checks land.
-NOT_APPLICABLE = {}
+NOT_APPLICABLE = {
+    "C18": "transport-level clauses (every attempt reaches the server with the original method/URL/headers/complete body; returned body readable to the end; gRPC argument/metadata pass-through on a real connection) depend on net/http, net, gRPC and the kernel: code behind I/O cannot be encoded for the solver. Only the adapter kernels are claimed (see the C18 check).",
+    "C19": "release of pooled connections when a retried/losing response is not closed is net/http.Transport behaviour behind I/O; not encodable. The goroutine/timer clauses for the core library and the context merger are claimed (see the C19 check).",
+}
 for _p in ["C%02d" % i for i in range(1, 20)]:
     if _p not in PROPS:
         NOT_APPLICABLE[_p] = "no check registered yet in this revision (harness under construction); not claimed"
